@@ -216,8 +216,19 @@ def type_unify(pat, ty, params):
                 return None
             sub.update(s_)
         return sub
-    if pat.startswith('[') and ty.startswith('['):
-        pi, ti = pat[1:-1].split(';'), ty[1:-1].split(';')
+    if pat.startswith('[') and ty.startswith('[') and pat.endswith(']') and ty.endswith(']'):
+        def semi(t):
+            parts, cur, d = [], '', 0
+            for ch in t:
+                d += ch in '[(<'
+                d -= ch in '])>'
+                if ch == ';' and d == 0:
+                    parts.append(cur)
+                    cur = ''
+                else:
+                    cur += ch
+            return parts + [cur]
+        pi, ti = semi(pat[1:-1]), semi(ty[1:-1])
         if len(pi) != len(ti):
             return None
         sub = {}
@@ -282,6 +293,8 @@ def machine(ctx, params, rec, n_value=None):
     prev = m.const_hook
 
     def hook(mm, text):
+        if re.fullmatch(r'\d+(_?usize)?', text.strip()):
+            return int(re.match(r'\d+', text.strip()).group(0))        # a const generic argument substituted for its parameter
         if text == 'N' and n_value is not None:
             return n_value
         if text == 'ARRAY_TUPLE_LIMIT':
@@ -409,6 +422,99 @@ def explore(item):
 
 def show_rope(cs):
     return ''.join(chr(c) if isinstance(c, int) else '{' + c.label + '}' for c in cs)
+
+
+# ------------------------------------------------------------------------------------------ compositions
+COMPOSE = ['Option<T>', 'Vec<T>', 'Box<T>', 'HashMap<K, V, H>', 'Result<T, E>', '(T1, T2,)', '[T; N]', 'BTreeSet<T>', 'std::rc::Rc<T>', '[T]']
+
+
+def compose_part(rep):
+    """An impl that inspects the TEXT of its argument (`contains`, `starts_with`, `replace` ..) is opaque to the hole-based execution
+    above (a hole is not searched).  So the generic impls are also run at nested instantiations built from each other -- Outer<Inner<T>>
+    for every pair of COMPOSE, and Option<Outer<Inner<T>>> -- where the inner text is concrete apart from the innermost parameter; the
+    expected text is the composition of the shape table."""
+    impls = {t[0]: t for t in G['impls']}
+
+    def first_param(self_ty):
+        gens = impls[self_ty][1]
+        for g in gens:
+            if g not in NOT_A_DEP and g != 'N' and g != 'K':
+                return g
+        return None
+
+    def rust_text(self_ty, arg):
+        """self type with its first value parameter := arg, keys := String, N := 2, hasher dropped"""
+        g = first_param(self_ty)
+        t = re.sub(r',\s*H\b', '', self_ty)
+        t = re.sub(r'\bK\b', 'String', t)
+        t = re.sub(r'\bN\b', '2', t)
+        return re.sub(r'\b' + g + r'\b', lambda _: arg, t, count=1) if arg is not None else t
+
+    def shape_text(self_ty, which, arg_shape):
+        sh = SHAPES.get(self_ty)
+        if self_ty.replace(' ', '') == '[T;N]':
+            sh = '[{T}, {T}]'
+        if self_ty.startswith('('):
+            gens = impls[self_ty][1]
+            sh = '[' + ', '.join('{' + g + '}' for g in gens) + ']'
+        sh = sh[which] if isinstance(sh, dict) else sh
+        sh = sh.replace('{K}', 'string')
+        g = first_param(self_ty)
+        return sh.replace('{' + g + '}', arg_shape) if arg_shape is not None else sh
+
+    cases = []
+    for o_ in COMPOSE:
+        for i_ in COMPOSE:
+            if o_ not in impls or i_ not in impls:
+                continue
+            inner_rust = rust_text(i_, None)
+            cases.append((rust_text(o_, inner_rust), o_, i_, None))
+            cases.append(('Option<' + rust_text(o_, inner_rust) + '>', 'Option<T>', o_, i_))
+    ob = di = 0
+    for ty, a, b_, c in cases:
+        for which in ('name', 'inline'):
+            if which == 'inline' and any(x in INLINE_PANICS_OK or x.startswith('(') for x in (a, b_, c) if x):
+                continue
+            inner = shape_text(c, which, None) if c else None
+            mid = shape_text(b_, which, inner)
+            want = template(shape_text(a, which, mid), which)
+            params = set(re.findall(r'\b(T\d*|E|V)\b', ty))
+            ex = Explorer()
+
+            def h(ctx):
+                rec = Rec()
+                m = machine(ctx, params, rec, 2)
+                try:
+                    return ('ok', list(m.call(f'<{ty} as TS>::{which}', []).cs))
+                except Panic as e:
+                    return ('panic', str(e))
+            try:
+                res = ex.run(h)
+            except Unsupported as e:
+                rep.inconclusive.append(f'composition {ty}::{which}: {e}')
+                continue
+            except (TypeError, AttributeError, KeyError, IndexError) as e:
+                rep.inconclusive.append(f'composition {ty}::{which}: engine error {type(e).__name__}: {e}')
+                continue
+            for pc, (k, r) in res:
+                ob += 1
+                if k == 'ok' and r == want:
+                    di += 1
+                    continue
+                if k == 'ok':
+                    # the same type in another spelling (e.g. `T | null | null` written `T | null`) is not a finding
+                    try:
+                        from . import tsparse as TP
+                        if TP.show(TP.normalize(TP.parse(r))) == TP.show(TP.normalize(TP.parse(want))):
+                            di += 1
+                            continue
+                    except TP.ParseError:
+                        pass
+                got = show_rope(r) if k == 'ok' else f'panic: {r}'
+                rep.violations.append({'what': f'<{ty} as TS>::{which}() = {got!r}, serde\'s representation is {show_rope(want)!r}',
+                                       'witness': {'impl': a, 'type': ty, 'method': which}, 'key': f'compose/{a}/{b_}/{c}/{which}'})
+    rep.absorb(dict(obligations=ob, discharged=di))
+    rep.part('nested instantiations (compositions of the generic impls)', cases=len(cases))
 
 
 # ------------------------------------------------------------------------------------------ feature-gated third-party impls
@@ -928,6 +1034,10 @@ def main():
             if native_disagrees(w) is not False:
                 rep.known_hits.setdefault(fid, w)
         rep.absorb(r)
+    try:
+        compose_part(rep)
+    except Unsupported as e:
+        rep.inconclusive.append(f'compositions: {e}')
     try:
         feature_part(rep)
     except (Unsupported, build.BuildError) as e:
